@@ -5,6 +5,10 @@ E = "acnportal.acnsim.models.ev."
 S = "acnportal.acnsim.models.evse."
 SA = "acnportal.algorithms.sorted_algorithms.SortedSchedulingAlgo."
 SEARCH = [SA + "discrete_max_feasible_rate", SA + "max_feasible_rate", SA + "max_feasible_rate.<locals>.bisection"]
+IFC = "acnportal.acnsim.interface.Interface."
+IIC = "acnportal.acnsim.interface.InfrastructureInfo."
+INFRA = [IFC + "_infrastructure_info", IFC + "infrastructure_info", IIC + "__init__", IIC + "get_station_index"]
+ACCESSORS = [IFC + "max_pilot_signal", IFC + "min_pilot_signal", IFC + "evse_voltage", IFC + "evse_phase", IFC + "remaining_amp_periods"]
 SORTMOD = "acnportal.algorithms.sorted_algorithms."
 SORTFNS = [SORTMOD + f for f in ("first_come_first_served", "last_come_first_served", "earliest_deadline_first", "least_laxity_first",
                                  "largest_remaining_processing_time")]
@@ -111,14 +115,21 @@ PLAN = {
     ),
     "C05": dict(
         level="other",
-        functions=[SIM + "run", SIM + "_process_event"],
+        functions=[SIM + "run", SIM + "_process_event"] + INFRA + ACCESSORS,
         bounded=[dict(module="rt.drivers", fn="sim_monitor", label="scheduler invocation / observation / isolation clauses")],
         text="PROVED (all event histories, all max_recompute values, every period; no bound): per-iteration step contract of Simulator.run over a "
              "ghost log of scheduler invocations - the scheduler is invoked in a period if and only if an event was processed in it, or a schedule "
              "was still owed (resumed run), or max_recompute is set and the last invocation is None or at least max_recompute periods ago (the "
              "invariant '_last_schedule_update = period of the last invocation' makes the code's test the property's test); at most once per period; "
              "the invocation is logged for exactly the current period; and the scheduler's precondition 'every event of this period has been "
-             "popped and applied' is discharged at the call site. BOUNDED: what the scheduler observes through Interface (period, datetime, active "
+             "popped and applied' is discharged at the call site. PROVED additionally (the true infrastructure description): "
+             "Interface._infrastructure_info / infrastructure_info return a FRESH InfrastructureInfo (not allocated before, so mutating it cannot touch "
+             "the simulation) whose limits, phases, voltages, constraint names, station ids (registration order), max / min pilots, allowable pilots and "
+             "continuity flags equal the network's current fields entry by entry, whose matrix equals the network's (an empty 0 x N matrix for a "
+             "constraint-free network) and which satisfies the shape / station-index invariant; InfrastructureInfo.__init__ stores its arguments, builds "
+             "the station index dictionary (dict comprehension) and raises ValueError exactly when the shapes are inconsistent; max_pilot_signal, "
+             "min_pilot_signal, evse_voltage, evse_phase return the network's entry at the station's registration position (KeyError exactly for an "
+             "unknown station); remaining_amp_periods = (requested - delivered) x 1000 / voltage x 60 / period. BOUNDED: what the scheduler observes through Interface (period, datetime, active "
              "sessions, previous rates/pilots/peak, infrastructure, advertised limits) and isolation (everything handed out is scribbled over, the "
              "simulator state digest must not change) are checked by the run-time monitor at every invocation of every seeded scenario.",
         note="the Interface accessors (deepcopy, numpy, SessionInfo construction) are not under deductive contract yet: observation and isolation "
@@ -168,7 +179,7 @@ PLAN = {
     "C06": dict(
         level="other",
         functions=[NET + "constraint_current", NET + "is_feasible", "acnportal.acnsim.interface.Interface.is_feasible",
-                   "acnportal.algorithms.utils.infrastructure_constraints_feasible", NET + "station_ids"],
+                   "acnportal.algorithms.utils.infrastructure_constraints_feasible", NET + "station_ids"] + INFRA,
         lemmas=["C06.three_checkers_agree", "C06.linear_relaxation_is_conservative"],
         bounded=[dict(module="rt.netmon", fn="feasibility_monitor", label="three feasibility checkers against the phasor definition near the limits")],
         text="PROVED (all constraint matrices incl. mixed signs, limits, phase angles, tolerances, schedule matrices of any size; no bound), each from its "
@@ -197,7 +208,7 @@ PLAN = {
     ),
     "C07": dict(
         level="other",
-        functions=SEARCH + GREEDY,
+        functions=SEARCH + GREEDY + [IFC + "remaining_amp_periods"],
         bounded=[dict(module="rt.algomon", fn="algo_monitor", label="every schedule() call of greedy / round-robin during seeded simulations"),
                  dict(module="rt.drivers", fn="sim_monitor", label="simulation-level corollaries under the sorted algorithms", schedulers=["sorted", "rr"])],
         text="PROVED (all vectors, level lists, brackets; relative to the algorithm-side feasibility predicate FEAS): the two search procedures every "
@@ -214,7 +225,7 @@ PLAN = {
     ),
     "C08": dict(
         level="other",
-        functions=SEARCH + GREEDY + SORTFNS,
+        functions=SEARCH + GREEDY + SORTFNS + [IFC + "remaining_amp_periods", IFC + "max_pilot_signal"],
         lemmas=["C08.feasible_set_along_one_coordinate_is_an_interval"],
         bounded=[dict(module="rt.algomon", fn="algo_monitor", label="priority allocation of greedy / round-robin / uncontrolled against the specification")],
         text="PROVED (relative to FEAS): discrete_max_feasible_rate returns the LARGEST allowable level that is feasible given the fixed other entries "
